@@ -14,6 +14,10 @@ RULE = ('Hypothesis-generated abstract templates (depth <= 3, all block '
         'real tag and >= 1 literal containing <, &, %, a quote or a newline, '
         'or a line end directly after a block tag, or (concatenation) tags '
         'on both sides.  Distinct = distinct hash of (ast, style).')
+RULE += (
+         'Also: near-miss tags (one character inserted at every '
+         'position of a real tag of each syntax; what the reference '
+         'lexer no longer recognises as a tag must come out verbatim). ')
 ASSUMPTIONS = [
     'literal fragments that collide with a neighbouring tag according to a '
     'conservative reference lexer are dropped by construction (counted as '
